@@ -258,8 +258,13 @@ func (p *Prog) Spliced(root *Fn) *spliced {
 					nb.Nodes = append(body[:len(body):len(body)], results[0])
 					nb.Succs = condSuccs
 				case ret != nil:
-					// `return h(x)`: the helper's results are the caller's
-					body = append(body[:len(body):len(body)], &ast.ReturnStmt{Return: r.Return, Results: results})
+					// `return h(x)`: the helper's results are the caller's (the helper's own return statement
+					// stands for the caller's, so that rules probing it still find it)
+					if len(r.Results) > 0 {
+						body = append(body[:len(body):len(body)], r)
+					} else {
+						body = append(body[:len(body):len(body)], &ast.ReturnStmt{Return: r.Return, Results: results})
+					}
 					nb.Nodes = body
 					// (cont is unreachable from here; it stays for the nodes after a return, which do not exist)
 				case assign != nil && len(results) > 0:
